@@ -3,7 +3,7 @@ from __future__ import annotations
 
 from .. import timeflow
 from ..grammar import cmp_reader
-from .wire import Wire, fdesc, TIME_TYPES
+from .wire import Wire, fdesc, TIME_TYPES, spec_tagged_default_term
 
 PID = "C03"
 LEVEL = "other"
@@ -30,6 +30,9 @@ def check(rep, ctx):
                                      "MetadataRequest v12 with tagged section 01 63 02 61 62 raises KeyError otherwise")
     R_BN = rep.rule("C03-b-nested", "nested structs are decoded by closures of the same entity_reader factory", floor=900)
     R_C = rep.rule("C03-c-defaults", "every tagged field is bound after the loop (wire value or resolvable default)", floor=50)
+    R_CV = rep.rule("C03-c-default-value", "an absent tagged field decodes to the default the definition gives it (explicit default, "
+                    "zero value, or for a struct its members' declared defaults)", floor=50,
+                    necessary_because="UpdateRaftVoterResponse.current_leader absent must decode to CurrentLeader(-1, -1, '', 0), the members' declared defaults")
     R_D = rep.rule("C03-d-no-default-reject", "entity reader has no raising path after its reads other than construction", floor=1600)
     R_E = rep.rule("C03-e-ms-exact", "millisecond timestamps/durations are decoded without coarsening (T-gran) and "
                    "64-bit durations without a float (T-float64)", floor=200,
@@ -76,6 +79,14 @@ def check(rep, ctx):
         rep.check(R_D, not bad, construct=key, stmt=f"raises {bad}", message=f"entity reader may raise {bad} after decoding its fields",
                   **W.codec_loc(rd["codec"]))
         names = {f["name"] for f in cls["fields"]}
+        res = rd.get("results") or []
+        if len(res) > 1:
+            base = res[0]["fields"]
+            for other in res[1:]:
+                diff = sorted(k for k in set(base or {}) | set(other["fields"] or {}) if (base or {}).get(k) != (other["fields"] or {}).get(k))
+                rep.check(R_C, not diff, construct=key, stmt=f"fields {diff} bound differently under {other['conds']}",
+                          message=f"the decoded value of fields {diff} depends on {other['conds']}: an absent tagged field is not always "
+                                  f"resolved to its default", instance=key + "|paths", **W.codec_loc(rd["codec"]))
         rep.check(R_C, set(rd.get("result_fields") or []) == names, construct=key, stmt=f"constructed with {rd.get('result_fields')}",
                   message=f"entity is constructed with fields {rd.get('result_fields')} but declares {sorted(names)}",
                   instance=key + "|all", **W.codec_loc(rd["codec"]))
@@ -108,6 +119,11 @@ def check(rep, ctx):
                 rep.check(R_C, ok, construct=construct, stmt=f"tag {f['metadata']['tag']} default {rdft}",
                           message=f"tagged field is not bound by the reader (arm {pf.get('name')}, default {rdft}, {pf.get('arm_problem')})",
                           **W.floc(cls, f))
+                want = spec_tagged_default_term(ctx, key, f["name"])
+                if want is not None and isinstance(rdft, dict) and "term" in rdft:
+                    rep.check(R_CV, rdft["term"] == want, construct=construct, stmt=f"absent tag {f['metadata']['tag']} -> {rdft['term']}",
+                              message=f"an absent tagged field is filled with {rdft['term']} but the definition's default is {want}",
+                              **W.floc(cls, f))
             kt = (f.get("metadata") or {}).get("kafka_type")
             if kt in TIME_TYPES:
                 kind, bits = TIME_TYPES[kt]
@@ -126,5 +142,6 @@ def check(rep, ctx):
                                       instance=construct, **W.codec_loc({"fn": fn, "line": rdsc.get("_line", 0)}))
                     else:
                         rep.check(R_E, True, construct=fn, stmt=timeflow.show(rdsc["conv"]), instance=construct)
+    W.finish(rep)
     rep.extra.update(classes=len(S.classes), engine_stats=W.bundle.get("stats"))
     rep.trusted_base += ["struct format semantics", "datetime.replace(microsecond=0) zeroes the sub-second part"]
